@@ -102,6 +102,12 @@ var c19Tmpls = map[string]c19Tmpl{
 	"pipe-long": {code: func(n, w int) string {
 		return "tick-flood 1 | " + c19Rep("all", n, " | ") + " | each {|x| tick 2 }"
 	}, total: func(n, w int) int { return 101 }, parallel: true},
+	// code run through eval (Frame.PrepareEval builds its own frame)
+	"eval-seq": {code: func(n, w int) string { return "eval '" + c19Rep("tick 0", n, "; ") + "'" }, total: func(n, w int) int { return n }},
+	"eval-sleep": {code: func(n, w int) string { return "eval '" + c19Rep("tick 0", n, "; ") + "; sleep 1000'" }, total: func(n, w int) int { return n }, mustStop: true},
+	"eval-nested": {code: func(n, w int) string {
+		return fmt.Sprintf("fn f { eval 'for x [(range %d)] { tick 0; tick 0 }' }; f; tick 0", n)
+	}, total: func(n, w int) int { return 2*n + 1 }},
 	"pipe-sleep": {code: func(n, w int) string {
 		return fmt.Sprintf("for x [(range %d)] { tick 1 } | sleep 1000", n)
 	}, total: func(n, w int) int { return n }, parallel: true, mustStop: true},
@@ -360,7 +366,7 @@ func c19Instances(tier string) []c19Inst {
 		{"seq", 5, 0}, {"seq", 12, 0}, {"bg-seq", 5, 0}, {"bg-fn", 3, 0}, {"bg-sleep", 3, 0}, {"for", 3, 0}, {"for", 6, 0}, {"while", 4, 0}, {"while", 9, 0},
 		{"each", 3, 0}, {"each", 6, 0}, {"fn", 3, 0}, {"fn", 6, 0}, {"capture", 4, 0}, {"capture", 8, 0},
 		{"try", 2, 0}, {"try", 4, 0}, {"defer", 2, 0}, {"defer", 4, 0},
-		{"pipe", 4, 0}, {"pipe", 8, 0}, {"pipe-long", 300, 0}, {"pipe-long", 60, 0}, {"pipe-sleep", 5, 0}, {"runpar-sleep", 5, 0}, {"runpar", 3, 0}, {"runpar", 5, 0},
+		{"eval-seq", 5, 0}, {"eval-sleep", 3, 0}, {"eval-nested", 3, 0}, {"pipe", 4, 0}, {"pipe", 8, 0}, {"pipe-long", 300, 0}, {"pipe-long", 60, 0}, {"pipe-sleep", 5, 0}, {"runpar-sleep", 5, 0}, {"runpar", 3, 0}, {"runpar", 5, 0},
 		{"peach", 4, 0}, {"peach", 8, 0},
 		{"peach-b", 6, 2}, {"peach-b", 8, 3}, {"peach-b", 5, 1}, {"peach-go", 8, 2}, {"peach-go", 12, 3}, {"peach-go", 6, 1},
 		{"peach-pipe", 8, 2}, {"nested", 3, 2},
@@ -441,7 +447,7 @@ func c19GenAsync(t *rapid.T) c19Case {
 func init() {
 	vs.Register(vs.Prop[c19Case]{
 		Name: "C19/sweep",
-		Rule: "21 program templates (statement sequence, the same after a background job `nop &` in the frame or in a function, for, while, each, recursive fn, output capture, try/catch/finally, defer, 3-stage pipeline, a pipeline of 62 / 302 forms whose first form is interrupted at once and then writes 100 values, pipeline and run-parallel with `sleep 1000`, run-parallel, peach, peach &num-workers with closure / Go-function / piped inputs, bounded peach nested in each) x 1-3 sizes; for each instance every tick index K in 0..total is a case: the K-th `tick` to arrive cancels EvalCfg.Interrupts synchronously (K=total: nobody cancels; not for the sleep templates). GOMAXPROCS in {1,2,4,16} and the tick yield pattern vary with the seed. Non-trivial = the interrupt is delivered (K<total)",
+		Rule: "24 program templates (statement sequence, the same inside eval with and without a trailing sleep and inside eval inside a function, the same after a background job `nop &` in the frame or in a function, for, while, each, recursive fn, output capture, try/catch/finally, defer, 3-stage pipeline, a pipeline of 62 / 302 forms whose first form is interrupted at once and then writes 100 values, pipeline and run-parallel with `sleep 1000`, run-parallel, peach, peach &num-workers with closure / Go-function / piped inputs, bounded peach nested in each) x 1-3 sizes; for each instance every tick index K in 0..total is a case: the K-th `tick` to arrive cancels EvalCfg.Interrupts synchronously (K=total: nobody cancels; not for the sleep templates). GOMAXPROCS in {1,2,4,16} and the tick yield pattern vary with the seed. Non-trivial = the interrupt is delivered (K<total)",
 		Enum: c19Enum, Check: c19Check, Class: c19Class,
 		Shards: 8, Timeout: 45 * time.Second,
 		Known: []vs.Known[c19Case]{
